@@ -346,3 +346,52 @@ pub fn record_panic_locations() {
 pub fn last_panic_loc() -> String {
     LAST_PANIC_LOC.lock().map(|g| g.clone()).unwrap_or_default()
 }
+
+/// Address-space cap for this process: a corrupted length field read from disk must end in a failed
+/// allocation (seen as a crashed probe child), not in the machine's OOM killer.
+pub fn cap_memory(bytes: u64) {
+    unsafe {
+        let lim = libc::rlimit { rlim_cur: bytes, rlim_max: bytes };
+        libc::setrlimit(libc::RLIMIT_AS, &lim);
+    }
+}
+
+/// Boots `dir` in a forked child (memory-capped, 30 s alarm) to find out whether the start-up
+/// sequence survives this directory: Ok(()) or Err(description). The caller's process must be
+/// single-threaded at this point (the workers are).
+pub fn probe_boot(dir: &str) -> Result<(), String> {
+    unsafe {
+        let pid = libc::fork();
+        if pid < 0 {
+            return Err("fork failed".to_string());
+        }
+        if pid == 0 {
+            cap_memory(3 << 30);
+            libc::alarm(30);
+            let d = dir.to_string();
+            let r = catch_unwind(AssertUnwindSafe(|| {
+                let mut n = Node::boot_single(&d);
+                n.pump();
+            }));
+            libc::_exit(if r.is_ok() { 0 } else { 3 });
+        }
+        let mut status: libc::c_int = 0;
+        libc::waitpid(pid, &mut status, 0);
+        if libc::WIFEXITED(status) {
+            match libc::WEXITSTATUS(status) {
+                0 => Ok(()),
+                3 => Err("panic during start-up".to_string()),
+                c => Err(format!("start-up exited with status {}", c)),
+            }
+        } else if libc::WIFSIGNALED(status) {
+            let sig = libc::WTERMSIG(status);
+            Err(match sig {
+                libc::SIGABRT => "start-up aborted (allocation failure or abort)".to_string(),
+                libc::SIGALRM => "start-up did not finish within 30 s".to_string(),
+                s => format!("start-up killed by signal {}", s),
+            })
+        } else {
+            Err("start-up ended abnormally".to_string())
+        }
+    }
+}
